@@ -9,7 +9,7 @@ CHECKS['C20'] = dict(
     steps=[dict(mode='asan', bin='c20_tags')],
     rule='exhaustive enumeration: every C string of length 0..2 over all 255 non-NUL bytes and of length 3..6 (quick) / 3..8 (thorough) '
          'over 9 boundary bytes, each in an exact-size guard-page buffer; tags over a 16-byte-value alphabet^4 (quick) / all 2^32 tags (thorough); '
-         'every 0..4-character prefix of every feature id / language tag / script tag of the shipped fonts, zero- vs space-padded, on every tag-taking entry point. '
+         'every 0..4-character prefix of every feature id / language tag / script tag of the shipped fonts and of synthesised fonts with 1- to 4-character ids and with ids containing non-trailing spaces, zero- vs space-padded, on every tag-taking entry point (prefixes ending in a padding byte are not tags); a complete id of the font must select exactly that feature. '
          'distinct = outcome classes (length/high-bit classes, lookup hit/miss, distinct segment dumps)',
     state_meaning='one (string | tag | font,tag,prefix) case; transitions = API calls compared with the two-line reference conversion',
     level_text='Exhaustive enumeration of the bounded input space (all short strings over full/boundary byte alphabets, all tags, all padded tag prefixes) against a two-line reference conversion; each case runs on the real library with guard pages so a single byte of over-read/over-write faults deterministically.',
@@ -36,7 +36,7 @@ CHECKS['C12'] = dict(
     level='exploration',
     steps=[dict(mode='asan', bin='c12_nchars')],
     rule='all NUL-terminated strings of true length 0..3 over a 7-item alphabet (1-,2-,3-,4-byte characters, two kinds of lone lead unit, space) in UTF-8/16/32, terminator = last readable unit before a guard page, '
-         'x nChars in {len+1, len+2, 2len+1, 64} x dir {0,1} x fonts; oracle: no fault, n_cinfo == len, dump identical to the call with the exact count. distinct = distinct reference segment dumps',
+         'x nChars in {len+1, len+2, 2len+1, 64} x dir {0,1} x fonts (incl. one whose cmap maps U+0000 to a glyph); oracle: no fault, n_cinfo == len, dump identical to the call with the exact count. distinct = distinct reference segment dumps',
     level_text='Bounded exhaustive enumeration of short NUL-terminated texts with over-estimated nChars against the real library under guard pages; differential oracle (exact-count call).',
     level_note='Trusted: guard pages, ASan. Only over-estimates from a fixed set of five formulas are explored.',
     technique='exhaustive bounded input enumeration on the real code (guard-page buffers), differential oracle',
@@ -96,7 +96,7 @@ _PROG_RULE = ('fonts enumerated by gen/progenum.py and filtered by the REAL load
               '{NEXT, PUT_GLYPH x|y, PUT_SUBS -1|0|+1, PUT_COPY -1|0|+1, INSERT, DELETE, ASSOC, attach.to -2..2, ATTR_SET adv/shift/att/insert, IATTR_SET user, SET_FEAT, slot/glyph-attr readers} x 6 terminators '
               '(RET_ZERO, POP_RET -2..2), in 3 (quick) / 6 (thorough) rule contexts (rule length 1..3, pre-context 0..1, maxRuleLoop 1/2/5, substitution or positioning pass) followed by a fixed attaching pass; '
               '(constraint) every constraint program of <=4 / <=5 atoms over 20 atoms incl. CNTXT_ITEM bodies netting 0/+1/+2, plus CNTXT_ITEM bodies of k = 2..16 pushes (skipped at run time on the other slots) followed by k-1 AND/ADD/OR; (twopass) all ordered pairs (thorough: triples) of 18 hand-written attach/re-attach/delete/insert/copy/assoc rules '
-              'in two passes / one pass / substitution+positioning, LTR and RTL fonts; (manyrules) scale seeds with 43..200 rules per rule length 1..4 ending in successive success states (candidate lists beyond the 128-entry rule buffers of the engine).  Every accepted font x every text of length 0..3 (thorough 0..4) over {a, b, unmapped} + astral/mark/long texts x dir flags {0,1,3,6} (thorough 0..7) x {font NULL, ppm 12}. ')
+              'in two passes / one pass / substitution+positioning, LTR and RTL fonts; (manyrules) scale seeds with 43..200 rules per rule length 1..4 ending in successive success states (candidate lists beyond the 128-entry rule buffers of the engine); (growth) a substitution rule inserting k in {1,31,62,63,64,65,100} slots per glyph, optionally a second doubling substitution pass, then a pass at iPos that does nothing / INSERTs / DELETEs (the 64-slots-per-character budget and the refusal by the loader of length-changing opcodes after iPos).  Every accepted font x every text of length 0..3 (thorough 0..4) over {a, b, unmapped} + astral/mark/long texts x dir flags {0,1,3,6} (thorough 0..7) x {font NULL, ppm 12}. ')
 
 for _p, _what in (('C02', 'oracle: ASan/UBSan silence, rule-loop counter hook <= maxRuleLoop x (slots + insert budget + 2), n_slots <= 64 x max(1,nChars), all gr_seg_*/gr_slot_*/gr_cinfo_* queries incl. every gr_slot_attr code, allocation balance, table borrow discipline'),
                   ('C03', 'oracle: next/prev chain visits exactly n_slots distinct slots ending at last, prev inverse, indices a permutation, finite positions, gid < n_glyphs'),
@@ -104,7 +104,7 @@ for _p, _what in (('C02', 'oracle: ASan/UBSan silence, rule-loop counter hook <=
                   ('C05', 'oracle: n_cinfo == nChars, characters and bases equal the reference decoding, slot before/after/original in range, every character covered, cinfo before/after in [0,n_slots)')):
     CHECKS[_p] = dict(
         level='exploration',
-        steps=[dict(name='program_enumeration', py=stream_families(['twopass', 'manyrules', 'constraint', 'action'], _p), targets=[('asan', 'c02_stream')]),
+        steps=[dict(name='program_enumeration', py=stream_families(['growth', 'twopass', 'manyrules', 'constraint', 'action'], _p), targets=[('asan', 'c02_stream')]),
                dict(name='accepted_load_mutants', py=cached_binary('c01_load', _p, 'C01'), targets=[('asan', 'c01_load')]),
                dict(name='shipped_corpora', py=cached_binary('c03_corpus', _p, 'C02'), targets=[('asan', 'c03_corpus')])],
         rule=_PROG_RULE + 'Additionally every C01 load mutant (single byte / field / field pair / truncation deviations of the seed fonts) that the loader accepts is shaped with 4 texts x dir {0,1,3}; and every shipped font x corpus lines/words + every substring of 1..4 characters of the first lines (texts that start inside a cluster or with a mark) x dir 0..7 x {font NULL, ppm 16}. ' + _what + '. distinct = distinct structural segment dumps (slots, glyphs, attachments, associations) observed',
@@ -158,7 +158,7 @@ CHECKS['C16'] = dict(
          'roots = fonts {S-min, S-full, S-full compressed, small.ttf} (thorough + Padauk) x faceOptions {0,2,4,6,7} x {release fn, no release fn}; operations = make font, 12 gr_make_seg variants (3 texts x dir x font/NULL), featureval_for_lang (default / language), clone, '
          'feature label in 3 encodings, value label, justify, linebreak, is_char_supported, full face dump, and destroy of every live object in every order that respects ownership (fonts/segments before the face; feature values and labels may outlive it); depth 5 (thorough 7), '
          'deduplicated on (live objects with parameters, outstanding borrows); every history is replayed on a fresh world and closed by destroying the rest in a legal order. Invariants after every operation: no foreign/double release, no get_table after load with preloadAll, ASan silence; at quiescence: no outstanding borrow, allocation balance zero. '
-         'Environment deviations: every table x {NULL, length 0, length 3} x options 0..7 x {release, no release}: outstanding set empty when gr_make_face returns NULL',
+         'Environment deviations: every table x {NULL, length 0, length 3} x options 0..7 x {release, no release}: outstanding set empty when gr_make_face returns NULL. Rejecting fonts: S-full with ONE unreadable glyph (outline box xMin > xMax; two positions) x options 0..7 x {release, no release}: preloading creation fails after the glyph loader borrowed its tables, lazy faces load and meet the glyph while shaping: same borrow invariants and allocation balance',
     state_meaning='states = distinct (live objects, outstanding borrows) configurations; transitions = API operations executed on real objects, invariants evaluated after each',
     level_text='Explicit-state BFS over API histories against an environment model of the table callbacks (fresh copies, strict bookkeeping), invariants in every state, plus exhaustive single-table environment deviations.',
     level_note='Trusted: environment model (src/common/memface.hpp), ASan use-after-free detection on released copies, allocator statistics for the balance. Object multiplicities are bounded (1 face, 1 font, 2 segments, 2 feature values, 1 label).',
@@ -219,7 +219,7 @@ CHECKS['C09'] = dict(
     level='model_checking',
     steps=[dict(mode='trk', bin='c09_threads'), dict(mode='tsan', bin='c09_threads')],
     rule='harness: N in {2,3} threads, each gr_face_featureval_for_lang + gr_make_seg on its own text (texts with overlapping glyph sets) + full dump + feature label + is_char_supported + destroy, on ONE cold shared face (gr_face_preloadAll) and ONE shared gr_make_font font; '
-         'fonts S-full, small.ttf, Padauk (thorough + Scheherazade, Awami_test, charis) x dir {0,1}. The library is compiled with -fsanitize=thread instrumentation and linked against our own __tsan_* runtime (src/sched/trk_runtime.cpp): every instrumented access is classified private (own stack / own allocation arena) or shared; '
+         'fonts S-full, small.ttf, Padauk, S-full with one unreadable glyph (preloadAll must refuse it, the configuration is then vacuous) (thorough + Scheherazade, Awami_test, charis) x dir {0,1}. The library is compiled with -fsanitize=thread instrumentation and linked against our own __tsan_* runtime (src/sched/trk_runtime.cpp): every instrumented access is classified private (own stack / own allocation arena) or shared; '
          'two accesses are dependent iff same 8-byte granule, different threads, at least one write. Run 0 records the access sets; if the dependence relation is empty all interleavings are Mazurkiewicz-equivalent to the executed one (1 schedule class, reported with the event counts); otherwise (and always for the POSITIVE CONTROL configurations: lazily loading face, advance-callback font, and - the one that MUST show a conflict, independent of library internals - every thread letting the library write a tag into one caller-supplied buffer) '
          'every schedule with <= 2 preemptions at the dependent accesses is executed under a serialising scheduler from an identical cold state and each thread\'s result is compared with the single-threaded reference. Oracles: empty dependence relation (= no data race, the library has no synchronisation), no table callback during the parallel phase, per-thread result == sequential result. '
          'Cross-check: the same bodies run free 20x under the real ThreadSanitizer',
